@@ -310,34 +310,32 @@ def rule_4(ctx):
 
 
 def rule_5(ctx):
-    om = ctx.mod('xlfunctions.operator')
-    asym = asymmetric_overrides(ctx)
-    guards = {}
-    for name, opcls in WRAPPERS.items():
-        fn = om.func(name)
-        p = func_params(fn)
-        r = last_return(fn)
-        ok = False
-        why = f'{name} does not end in `return {p[0]} (op) {p[1]}`'
-        if r is not None and isinstance(r.value, ast.Compare) and len(r.value.ops) == 1:
-            c = r.value
-            ok = type(c.ops[0]) is opcls and isinstance(c.left, ast.Name) and c.left.id == p[0] \
-                and isinstance(c.comparators[0], ast.Name) and c.comparators[0].id == p[1]
-            why = f'{name} returns `{ast.unparse(c)}`'
-        elif r is not None and isinstance(r.value, ast.Call) and isinstance(r.value.func, ast.Name) \
-                and r.value.func.id == MIRROR[name] and len(r.value.args) == 2 \
-                and [ast.unparse(a) for a in r.value.args] == [p[1], p[0]]:
-            ok = not asym
-            why = (f'{name} delegates to {MIRROR[name]}({p[1]}, {p[0]}): a > b <=> b < a only holds for a symmetric order, '
-                   'but Text overrides the comparisons without looking at the other operand\'s type, so the result now depends '
-                   'on which operand\'s method runs (2>"1" becomes TRUE)')
-        ctx.expect(ok, fn, f'{name} applies its own operator to (left, right)', why)
-        if name in ('OP_GT', 'OP_LT', 'OP_GE', 'OP_LE'):
-            g = [n for n in fn.body if isinstance(n, ast.If)]
-            guards[name] = tuple(ast.dump(x.test) + '->' + ast.dump(x.body[0]) for x in g)
-    ctx.expect(len(set(guards.values())) == 1, om.func('OP_GT'), 'ordering wrappers share one blank short-circuit',
-               'the four ordering wrappers treat blanks differently')
-    ctx.floor(7, 'six wrappers + shared guard')
+    """The six comparison operators as the evaluator calls them (the registered objects: wrappers, private decorators, bodies as
+    written) on every ordered pair of representative non-blank values: each computes its own relation of the one total order with
+    the operands in written order. (Text-left / non-text-right pairs are the known finding of C09.3.)"""
+    import operator as op_
+    from . import values as V
+    vals = [('-1', V.num(-1), (0, -1)), ('2.5', V.num(2.5), (0, 2.5)), ('7', V.num(7), (0, 7)), ('"a"', V.text('a'), (1, 'A')),
+            ('"A"', V.text('A'), (1, 'A')), ('"b"', V.text('b'), (1, 'B')), ('"10"', V.text('10'), (1, '10')),
+            ('FALSE', V.boolean(False), (2, 0)), ('TRUE', V.boolean(True), (2, 1))]
+    table = {'OP_EQ': op_.eq, 'OP_NE': op_.ne, 'OP_LT': op_.lt, 'OP_LE': op_.le, 'OP_GT': op_.gt, 'OP_GE': op_.ge}
+    for name, fn in table.items():
+        f = V.registered(ctx, name)
+        wrong = []
+        for la, a, ka in vals:
+            for lb, b, kb in vals:
+                if ka[0] == 1 and kb[0] != 1:
+                    continue
+                out = V.call(ctx, name, [a, b])
+                got = V.norm(out.value) if out.end == 'return' else (out.end, V.norm(out.value))
+                val = got[1] if isinstance(got, tuple) and len(got) == 2 and got[0] == 'Boolean' else got
+                want = fn(ka, kb)
+                if val is not want:
+                    wrong.append(f'{la} {name[3:]} {lb} = {got!r} instead of {want}')
+        ctx.expect(not wrong, f.node, f'{name} applies its own operator to (left, right)',
+                   f'{name} does not compute its relation of the total order (numbers < texts < FALSE < TRUE, texts case-insensitively) with the '
+                   'operands in written order: ' + '; '.join(wrong[:4]))
+    ctx.floor(6, 'six wrappers')
 
 
 def rule_6(ctx):
